@@ -374,4 +374,11 @@ theorem dropHandle_ok {sz : Nat} {s : St} {o : Nat}
       subst hl''
       exact ⟨l, rfl, rfl, rfl, rfl⟩
 
+theorem sum_eq_zero_of_all : ∀ (l : List Nat), (∀ x ∈ l, x = 0) → l.sum = 0
+  | [], _ => rfl
+  | x :: xs, h => by
+    have h1 : x = 0 := h x (by simp)
+    have h2 := sum_eq_zero_of_all xs (fun y hy => h y (by simp [hy]))
+    simp [h1, h2]
+
 end RotoV.ListM
